@@ -54,6 +54,9 @@ class EscapeOfHEProducts(ExactSolver):
 
         # check for illegal input values
 
+        if self.geometry != 1:
+            raise ValueError('geometry must be 1 (axial)')
+
         if self.D <= 0:
             raise ValueError('Detonation velocity must be > 0')
 
